@@ -15,6 +15,7 @@ import math, os
 import numpy as np
 from common import *
 from simlib import *
+from simmodel import check_simulates_tables
 
 
 def point_net(rng, ncells, geom=None):
@@ -109,6 +110,13 @@ def run(args):
         if not np.allclose(x, want, rtol=1e-7, atol=1e-7):
             bad = np.where(~np.isclose(x, want, rtol=1e-7, atol=1e-7))[0].tolist()
             R.spec_fail(dict(kind="synaptic-step-differs-from-closed-form"), f"after one step cells {bad} deviate from the closed form by {np.max(np.abs(x - want)):.3g} mV", inp, x.tolist(), expected=want.tolist())
+        # ---------------- the whole simulation (several steps, synaptic states evolving) is the one the Lean model computes from the
+        #                  edge table: pre / post compartments, types, per-edge parameters and states as listed
+        if t == 0:
+            from common import LeanDriver as _LD
+            net.delete_recordings(); net.select(nodes=list(range(net.nodes.shape[0]))).record("v", verbose=False)
+            check_simulates_tables(R, _LD(), net, dict(inp, block="point-neuron network"), backend=backend, dt=dt, nsteps=8, kind="network-differs-from-table-simulation")
+            net.delete_recordings(); net.delete_stimuli()
         # ---------------- order invariance (same multiset, shuffled creation order)
         perm = rng.permutation(ne)
         net2, _ = point_net(rng, ncells, geom=g)
